@@ -55,7 +55,7 @@ CHECKS = {
     "C12": {
         "level": "model_checking",
         "assumptions": ["the reference model in harness/model/tracker.go is written from the property statement and the Tracker interface doc comments, not from the implementation's data structures",
-                        "left open and therefore not generated except in last position: privilege change for a non-member, -k followed by argument-taking letters, ReNick to the empty name; the membership map of a snapshot returned by DelNick/DelChannel may be pre- or post-deletion"],
+                        "left open and therefore not generated except in last position: privilege change for a non-member, -k followed by argument-taking letters; the membership map of a snapshot returned by DelNick/DelChannel may be pre- or post-deletion"],
         "legs": [
             {"test": "TestC12_Enum", "quick": {"env": {"VERIF_C12_NICKS": "me,a", "VERIF_C12_CHANS": "#x", "VERIF_C12_DEPTH2": 1, "VERIF_C12_RICH": 0}, "timeout": "10m"},
              "thorough": {"env": {"VERIF_C12_NICKS": "me,a,b", "VERIF_C12_CHANS": "#x,#y", "VERIF_C12_DEPTH2": 0, "VERIF_C12_RICH": 0}, "timeout": "60m"}},
@@ -110,6 +110,7 @@ CHECKS = {
         "assumptions": EXPLORATION_ASSUMPTIONS + ["in the scripted-socket leg SSL configurations are checked for the dialled address only (on a dial that then fails); the loopback leg (TestC18_TCP) establishes real TCP and TLS sessions without a proxy and is skipped, counted, when 127.0.0.1:6667/6697 cannot be bound",
                                                   "between connect cycles the harness waits for the finished connection's goroutines to exit (their late Close is C07's subject)"],
         "legs": [
+            {"test": "TestC18_Regress", "quick": {"timeout": "5m"}, "thorough": {"timeout": "5m"}},
             {"test": "TestC18", "quick": {"checks": 500, "timeout": "15m"},
              "thorough": {"checks": 5000, "shards": 4, "timeout": "60m"}},
             {"test": "TestC18_TCP", "quick": {"checks": 60, "timeout": "15m"},
